@@ -324,9 +324,10 @@ def master_case(col, case):
                  ("mosi", p.mosi), ("miso", p.miso), ("div", d.clk_divider)], depth=48)
     viol.tracer = tr
     maxdiv = max([div] + case.get("divs", []))
-    cap = sum((it["length"] + 2) * maxdiv + it["gap"] + 12 for it in plan) + 200
+    # an overlapping start pulse that lands right after the end of its transfer legitimately starts another one
+    cap = sum(((it["length"] + 2) * maxdiv + it["gap"] + 12) * (3 if it["overlaps"] else 1) for it in plan) + 200
     if kind == "held":
-        cap = 2500
+        cap = case["n"] * ((plan[0]["length"] + 2) * maxdiv + 8) + 200
 
     class HeldStop:
         def signals(self):
